@@ -113,7 +113,10 @@ __attribute__((visibility("default"))) void module_constructor(const char *name)
 #ifndef NO_POSTINIT
 __attribute__((visibility("default"))) void module_post_init(struct module *self)
 {
-    ev("post-init", module_get_name(self));
+    /* like the destructor: the event names the module whose code this is (the name its own
+     * constructor was given), so that "its post-init ran" means this module's entry point */
+    (void)self;
+    ev("post-init", self_name);
 }
 #endif
 
